@@ -25,7 +25,7 @@ import os
 import vlib
 from checks import jq_shared as J
 
-LEVEL = "model_checking"
+LEVEL = "exploration"
 
 
 def sig_of(e, events=None, k=None):
